@@ -27,7 +27,7 @@ ASSUMPTIONS = [
     "each is tied to its real EventLoop by the end-to-end loop driver with the same op language (coverage.loop_*, loop_v5_*): deterministic histories only (cut where tokio's select! would choose at random)",
     "v5 loop: the broker's CONNACK carries session_present, receive-maximum and topic-alias-maximum only; the C07 window monitor on v5 traces uses min(receive-maximum of the last CONNACK, configured limit), "
     "an absent receive-maximum counting as 65535 (the client itself keeps the previous connection's limit in that case: never more than the monitor allows); a CONNACK announcing receive-maximum 0 is refused "
-    "(ConnFail) and, as the code stands, the connection then stays in use with the previous limit: modelled as is, the monitors attach no claim to it; the in-order retransmission clause of C11 is v4-only "
+    "(ConnFail) and ends the connection attempt like any failure (fix 6b2911f, F38; before it the connection stayed in use with the previous limit: Loop5.lstep5_keep); the in-order retransmission clause of C11 is v4-only "
     "(v5 clean() returns index order: there is no last_puback); topic aliases are not exercised through the loop",
     "tokio (timers, select! fairness), the keep-alive arm and network timeouts are outside the loop model; pending_throttle is in the driver glue (virtual time), not in the Coq model beyond TakeCancelled; "
     "keep-alive is set to 3600 s in the loop driver so it never fires",
@@ -873,10 +873,10 @@ class LoopMon:
             self.owed_acks = []
             self.conn_last = -1
         if kind == "ERROR" and arg.startswith("ConnFail"):
-            # v5: the state machine refused the CONNACK (receive-maximum 0); poll() returns the error
-            # before select(): the connection is NOT dropped, the next poll uses it
+            # v5: the state machine refused the CONNACK (receive-maximum 0): the connection attempt ends
+            # like any failure (fix 6b2911f, F38); its CONNACK notification, already queued, comes out
+            # of a later poll and is read for session_present only (see below)
             self.nontrivial.add("v5-connack-refused")
-            return
         if kind == "ERROR":
             self.alive = False
             self.owed_acks = []
@@ -1057,7 +1057,14 @@ def gen_loop_history(rng, model, mx, style="mixed", ver="4"):
             return "PUBREC %d %d" % (i, rng.choice([128, 135, 151])), True
         return "PUBREC %d%s" % (i, " 16" if v5 and rng.chance(1, 8) else ""), False
 
-    accept(1); do("POLL")
+    def connect(sp):
+        """ACCEPT + the poll that connects; a refused CONNACK (receive-maximum 0) ends that attempt:
+        accept again with an acceptable one"""
+        accept(sp); a = do("POLL"); note(a)
+        if a.startswith("ERROR ConnFail"):
+            do("ACCEPT %d %s" % (sp, rng.choice(["-", "1", str(mx)]))); a = do("POLL"); note(a)
+        return a
+
     unacked, rel, tag = {}, [], 0       # broker view of this connection
     btag = [0]                          # inbound publishes carry unique payload tags
 
@@ -1074,6 +1081,8 @@ def gen_loop_history(rng, model, mx, style="mixed", ver="4"):
                 if int(f[1]) not in rel:
                     rel.append(int(f[1]))
         return m.group(1)
+
+    connect(1)
 
     def drain():
         for _ in range(60):
@@ -1111,11 +1120,11 @@ def gen_loop_history(rng, model, mx, style="mixed", ver="4"):
                 break
             if a.startswith(("ERROR", "NOCONN")):
                 unacked.clear(); del rel[:]
-                accept(1); a = do("POLL"); note(a)
+                a = connect(1)
                 for _ in range(40):
                     # v5: the notifications the old connection left unread, then the CONNACK, come out
                     # first (no time passes): the scheduled broker writes below start after them
-                    if not v5 or a.startswith("EVENT I(CONNACK") or not a.startswith(("EVENT", "ERROR ConnFail")):
+                    if not v5 or a.startswith("EVENT I(CONNACK") or not a.startswith("EVENT"):
                         break
                     a = do("POLL"); note(a)
                 # the broker talks during the throttle waits of the resumed session
@@ -1149,14 +1158,14 @@ def gen_loop_history(rng, model, mx, style="mixed", ver="4"):
                 break
             if a.startswith(("ERROR", "NOCONN")):
                 unacked.clear(); del rel[:]
-                accept(1); note(do("POLL"))
+                connect(1)
                 for _ in range(rng.below(4)):          # replay partly ...
                     a = do("POLL"); note(a)
                 if rng.chance(1, 2):                   # ... and fail again before any PUBACK
                     hangup(); a = drain()
-                    if a.startswith("ERROR") and not a.startswith("ERROR ConnFail"):
+                    if a.startswith("ERROR"):
                         unacked.clear(); del rel[:]
-                        accept(1); note(do("POLL"))
+                        connect(1)
                 drain()
             continue
         if style == "burst" or r >= 97:
@@ -1219,16 +1228,15 @@ def gen_loop_history(rng, model, mx, style="mixed", ver="4"):
             a = drain()
         if a.startswith(("AMBIG", "DISABLED")):
             break
-        if (a.startswith("ERROR") and not a.startswith("ERROR ConnFail")) or a.startswith("NOCONN"):
+        if a.startswith("ERROR") or a.startswith("NOCONN"):
             unacked.clear(); del rel[:]
-            accept(0 if rng.chance(1, 6) else 1)
-            a = do("POLL"); note(a)
+            a = connect(0 if rng.chance(1, 6) else 1)
             if rng.chance(1, 5):      # second failure before pending is drained
                 note(do("POLL"))
                 do("DROP"); a = drain()
-                if a.startswith("ERROR") and not a.startswith("ERROR ConnFail"):
+                if a.startswith("ERROR"):
                     unacked.clear(); del rel[:]
-                    accept(1); note(do("POLL"))
+                    connect(1)
             drain()
     do("FINISH")
     return ops, answers
@@ -1279,7 +1287,7 @@ def loop_family(model, ver, mx, k):
             a = settle()
             if a in LOOP_CUT:
                 break
-            if a.startswith("ERROR") and not a.startswith("ERROR ConnFail"):
+            if a.startswith("ERROR"):
                 do("ACCEPT %d%s" % (sp, " " + rm if v5 and rm != "-" else ""))
                 a = settle()
                 if a in LOOP_CUT:
